@@ -17,13 +17,13 @@ SPEC = {
     "level": "exploration",
     "rule": ("C01/C02-style recipes plus an optimiser-biased family (temporaries stored once and loaded once right away, loaded twice, "
              "stored in one branch and loaded in another, reserved and dynamically indexed slots, ABI temporaries, variables shared with "
-             "subroutines) compiled under every option setting {scratch_slots on/off} x {frame_pointers on/off/default} at 1-2 versions "
+             "subroutines) and the repository's example programs (examples/**, tests/teal/rps.py, algobank router; contexts built from the programs' own byte literals) compiled under every option setting {scratch_slots on/off} x {frame_pointers on/off/default} at 1-2 versions "
              "and run on 3 contexts each.  An evaluation is one execution of a non-baseline compilation compared with the baseline "
              "execution on the same context; a recipe is non-trivial when the optimiser deleted at least one slot access in one of its "
              "compilations or the two calling conventions both executed a call; distinct = distinct recipe hashes."),
     "assumptions": ["vlib/avm.py semantics", "baseline = unoptimised scratch-convention compilation of the same program (C01/C02 judge the baseline itself)"],
     "min_evaluations": {"quick": 10000, "thorough": 150000},
-    "must_reach": ["agree", "optimizer_deleted_accesses", "setting_ss1_fp0", "setting_ss0_fp1", "setting_ss1_fp1", "cross_version_agree", "stack_traces_compared"],
+    "must_reach": ["agree", "corpus_agree", "corpus_approve", "optimizer_deleted_accesses", "setting_ss1_fp0", "setting_ss0_fp1", "setting_ss1_fp1", "cross_version_agree", "stack_traces_compared"],
     "shard_timeout": {"quick": 600, "thorough": 7200},
 }
 
@@ -267,6 +267,84 @@ def check_recipe(acc, probe, recipe, versions, ctxs, origin, only=None):
         acc.sample({"origin": origin, "versions": versions, "n_nodes": len(recipes.all_nodes(recipe)), "settings": [list(s) for s in settings_for(versions[-1])]})
 
 
+def corpus_ctxs(rng, mode, teals):
+    """Contexts for an example program: application arguments drawn from the byte literals the program itself compares with."""
+    from .. import tealgrammar as G
+    lits = [b""]
+    for t in teals:
+        for line in t.split("\n"):
+            toks = G.tokenize(line)
+            if len(toks) >= 2 and toks[0] == "byte":
+                try:
+                    b, _ = G.parse_bytes_args(toks[1:])
+                    if len(b) <= 64:
+                        lits.append(b)
+                except G.ParseError:
+                    pass
+    out = []
+    for i in range(6):
+        d = recipes.gen_ctx_desc(rng, mode)
+        d["args"] = [(rng.choice(lits) if rng.random() < .7 else rng.randrange(0, 20).to_bytes(8, "big")).hex() for _ in range(rng.choice([0, 1, 2, 3, 4]))]
+        d["txn"]["OnCompletion"] = rng.choice([0, 0, 0, 1, 2, 4, 5])
+        d["txn"]["ApplicationID"] = rng.choice([0, 77, 77])
+        d["txn"]["Sender"] = rng.choice(["53" * 32, "43" * 32])  # 'C'*32 is the creator in the reference AVM
+        for k in lits[:12]:
+            if k and rng.random() < .3:
+                d["gstate"][k.hex()] = rng.choice([0, 1, 2, 1000])
+        out.append(d)
+    return out
+
+
+def check_corpus(acc, probe, pt, ent, version, rng):
+    """Option differential on one of the repository's example programs (no recipe: pure differential)."""
+    from .. import corpus, rcase
+    from ..common import PT_ERRORS, h, reset_globals
+    name, mode, minv, thunk = ent
+
+    def comp(ss, fp):
+        reset_globals()
+        return [(lbl, rcase.G.parse_any(t), t) for lbl, t in corpus.compile_entry(pt, ent, version, ss, fp)]
+    try:
+        base = comp(False, False)
+    except PT_ERRORS:
+        acc.counters["corpus_baseline_rejected"] += 1
+        return
+    ctxs = corpus_ctxs(rng, mode, [t for _, _, t in base])
+    bouts = [[rcase.run_avm(p, cd, trace_calls=True) for cd in ctxs] for _, p, _ in base]
+    for ss, fp in settings_for(version):
+        probe.reset()
+        try:
+            var = comp(ss, fp)
+        except PT_ERRORS as e:
+            acc.evaluations += 1
+            acc.violation("option_breaks_compilation", {"corpus": name, "versions": [version], "setting": [ss, fp]}, "%s: %s" % (type(e).__name__, str(e)[:200]))
+            continue
+        events = list(probe.events)
+        eff_fp = fp if fp is not None else version >= 8
+        for (lbl, p, _), outs in zip(var, bouts):
+            for cd, b in zip(ctxs, outs):
+                if b.dropped or rcase.is_resource(b):
+                    acc.counters["dropped_corpus_ctx"] += 1
+                    continue
+                got = rcase.run_avm(p, cd, trace_calls=True)
+                if got.dropped or rcase.is_resource(got):
+                    acc.counters["dropped_corpus_ctx"] += 1
+                    continue
+                acc.evaluations += 1
+                d = same(b, got, [])
+                if not d and not eff_fp and b.status != "fail" and (stack_trace(b) != stack_trace(got) or b.res.final_stack != got.res.final_stack):
+                    d.append("caller-visible stack differs from the unoptimised program")
+                if d:
+                    acc.violation("option_changes_behaviour", {"corpus": lbl, "versions": [version], "setting": [ss, fp], "ctx": cd,
+                                                               "mechanism": KNOWN if any(ns != nl for ns, nl in events) else None},
+                                  "%s scratch_slots=%s frame_pointers=%s v%d: %s" % (lbl, ss, fp, version, "; ".join(d)[:600]))
+                else:
+                    acc.counters["agree"] += 1
+                    acc.counters["corpus_agree"] += 1
+                    acc.counters["corpus_" + b.status] += 1
+    acc.nontrivial.add(h([name, version]))
+
+
 def witness_known():
     """v.store(1); v.store(2); v.load(): the optimiser deletes both stores, leaving a value on the stack."""
     return {"mode": "app", "subs": [], "vars": [{"id": "v", "t": "u", "kind": "sv", "slot": None}],
@@ -279,6 +357,12 @@ def run_shard(shard):
     probe = OptProbe()
     if "replay" in shard:
         c = shard["replay"]
+        if "corpus" in c:
+            import pyteal as pt
+            from .. import corpus
+            ent = next(e for e in corpus.entries(pt) if c["corpus"].startswith(e[0]))
+            check_corpus(acc, probe, pt, ent, c["versions"][0], rng_for(shard.get("seed", 0), "c03-replay"))
+            return acc.result()
         check_recipe(acc, probe, c["recipe"], c["versions"], [c["ctx"]] if "ctx" in c else [recipes.gen_ctx_desc(rng_for(0, "r"), "app")], c.get("origin", "replay"),
                      only=c.get("setting") if c.get("setting") != [False, False] else None)
         return acc.result()
@@ -305,6 +389,15 @@ def run_shard(shard):
         ctxs = [recipes.gen_ctx_desc(rng, "app") for _ in range(3)]
         check_recipe(acc, probe, recipe, versions, ctxs, origin)
         acc.counters["recipes_" + origin] += 1
+    # ---- the repository's example programs (sharded)
+    import pyteal as pt
+    from .. import corpus
+    k = 0
+    for ent in corpus.entries(pt):
+        for v in sorted({ent[2], max(ent[2], 6), 8, 9, 10}):
+            k += 1
+            if k % shard["nshards"] == shard["shard"]:
+                check_corpus(acc, probe, pt, ent, v, rng)
     acc.counters["optimizer_probe_calls"] = probe.calls
     if shard["shard"] == 0:
         check_recipe(acc, probe, witness_known(), [9], [recipes.gen_ctx_desc(rng, "app")], "known_witness")
